@@ -16,6 +16,7 @@ import (
 
 	"k8s.io/klog"
 	"verif/harness/evid"
+	"verif/harness/hostports"
 )
 
 var newRng = evid.NewRng
@@ -47,7 +48,7 @@ func main() {
 		"at least one mapping was set up and removed while another pod's chains or foreign content was present."
 	run.Assume("strict fake (verif/harness/fakes) models iptables 1.8.9 nf_tables for the commands galaxy issues; thorough tier calibrates it against the real tool in a private netns")
 	run.Assume("handler calls are atomic steps: interleavings are explored at whole-call granularity (the order CloseHostports before CleanPortMapping is server.go's)")
-	run.Assume("a port found bound by a process other than this one is foreign interference: the case is skipped and counted")
+	run.Assume("fixed ports come from flock-owned blocks (verif/harness/hostports) and are bind-probed before each case; a port held by a socket that is not one of this process's fds (/proc/net joined with /proc/self/fd) is environment: counted, the case abandoned; a port held by this process after galaxy should have released it is a violation")
 
 	if fl.Replay != "" {
 		os.Exit(replay(run, fl.Replay))
@@ -71,12 +72,24 @@ func main() {
 	var rejectJobs []job
 	skipped := 0
 	workers := 8
+	alloc := hostports.New()
+	var bases []int
 	for w := 0; w < workers; w++ {
+		if b, ok := alloc.Block(); ok {
+			bases = append(bases, b)
+		}
+	}
+	if len(bases) == 0 {
+		run.Inconclusive("no free block of fixed host ports (all of 10000-29999 is owned by other harness processes)")
+		os.Exit(run.Finish(0))
+	}
+	run.Count("fixed_port_blocks_owned", int64(len(bases)))
+	for _, base := range bases {
 		wg.Add(1)
-		go func() {
+		go func(base int) {
 			defer wg.Done()
 			for j := range jobs {
-				cs := genCase(fl.Seed, j.idx, j.kind)
+				cs := genCase(fl.Seed, j.idx, j.kind, base)
 				c := runCase(run, cs, j.idx < calN)
 				run.Eval(1)
 				for k, v := range c.stats {
@@ -119,7 +132,7 @@ func main() {
 					mu.Unlock()
 				}
 			}
-		}()
+		}(base)
 	}
 	for i := 0; i < n; i++ {
 		for k := 0; k < 3; k++ {
@@ -135,7 +148,7 @@ func main() {
 			return rejectJobs[a].idx*3+rejectJobs[a].kind < rejectJobs[b].idx*3+rejectJobs[b].kind
 		})
 		for _, j := range rejectJobs {
-			if c := runCase(scratch, genCase(fl.Seed, j.idx, j.kind), true); c.skipped == "" {
+			if c := runCase(scratch, genCase(fl.Seed, j.idx, j.kind, bases[0]), true); c.skipped == "" {
 				calCases = append(calCases, c)
 			}
 		}
@@ -154,8 +167,13 @@ func main() {
 			run.Inconclusive("monitor counter " + k + " is zero: the situation was never observed")
 		}
 	}
-	if skipped*5 > n*3 {
-		run.Inconclusive(fmt.Sprintf("%d of %d cases skipped because fixed ports were occupied by foreign processes", skipped, n*3))
+	// environment interference (ports taken by processes other than this one) is counted, never a violation; above
+	// 5 % the run says too little about galaxy
+	if skipped*20 > n*3 {
+		run.Inconclusive(fmt.Sprintf("%d of %d cases abandoned because ports were taken by other processes", skipped, n*3))
+	}
+	if env := run.Counter("open_failed_port_taken_by_other_process"); env*20 > run.Counter("open_calls") {
+		run.Inconclusive(fmt.Sprintf("%d of %d OpenHostports calls failed on ports taken by other processes (> 5 %%)", env, run.Counter("open_calls")))
 	}
 	os.Exit(run.Finish(n * 3 / 2))
 }
@@ -232,7 +250,12 @@ func replay(run *evid.Run, path string) int {
 	idx, _ := strconv.Atoi(parts[1])
 	kind, _ := strconv.Atoi(parts[2])
 	run.Seed = seed
-	c := runCase(run, genCase(seed, idx, kind), false)
+	base, ok := hostports.New().Block()
+	if !ok {
+		run.Inconclusive("no free block of fixed host ports")
+		return run.Finish(0)
+	}
+	c := runCase(run, genCase(seed, idx, kind, base), false)
 	run.Eval(1)
 	for k, v := range c.stats {
 		run.Count(k, v)
